@@ -18,8 +18,10 @@
      runs of every structured row (junk before the box, one or more start boxes, segments introduced by
      colour/size codes, end box + junk or none);
    - stream level (C06_stream_page_given / C06_stream_page_auto): for every ground-truth schedule and every
-     multiplexing in the decidable class mux_ok (mux_ok_auto), however the units are packed into PES packets, the
-     reader returns exactly cues_of schedule: one cue per instance with rows, from its presentation time to the
+     multiplexing in the decidable class mux_ok (mux_ok_auto), however the units are packed into PES packets and
+     whatever PES-level noise is delivered with them (packets without time: dropped altogether; empty payloads and
+     payloads with a data identifier outside 0x10..0x1f: only their time counts towards the first/last presentation
+     time; a truncated last unit: dropped), the reader returns exactly cues_of schedule: one cue per instance with rows, from its presentation time to the
      next instance's / the last presentation time, relative to the first; rows in row order, text in the page's
      national character set, runs split at colour and size codes.  The class allows, between and around our
      packets: non-subtitle/stuffing units, wrong framing codes, short units, uncorrectable addresses; corrected
@@ -84,6 +86,10 @@ Print Assumptions C06_national_substitution.
 Theorem C06_units_roundtrip : forall us, ttx_units (concat (map enc_unit us)) = us.
 Proof. exact units_enc. Qed.
 Print Assumptions C06_units_roundtrip.
+(* a truncated last unit (fewer than two bytes, or a length byte running past the end of the payload) is dropped *)
+Theorem C06_units_truncated : forall us g, trail_ok g = true -> ttx_units (concat (map enc_unit us) ++ g) = us.
+Proof. exact units_enc_trail. Qed.
+Print Assumptions C06_units_truncated.
 (* magazine, packet number and payload of an encoded packet are decoded as sent *)
 Theorem C06_packet_roundtrip : forall fl mag pkt payload, addr_ok mag pkt = true ->
   unit_addr (3, enc_packet fl mag pkt payload) = Some (mag, pkt, payload).
